@@ -483,6 +483,26 @@ def main(chk):
     chk.decide(okd, 'next-step', 'damping', node=dmp,
                file=SOL, func='_damp_timestep', detail_bad='damped step is not dt * (the factor stored in _damping_factor: the sine ramp while count < n_damp, 1.0 afterwards): %s' % whyd,
                detail_ok='dt*factor; ramp while count < n_damp else 1.0 (%d paths)' % len(mpaths))
+    # what the loop is governed by is what the user set: the setters of the quantities the loop guard and the step computation read store their argument as given (a
+    # setter that "normalises" - 0 steps to no limit, a clipped final time - makes solve() run a schedule nobody asked for); conversions that keep the value are allowed
+    GOVERN = {'set_max_steps': 'max_steps', 'set_final_time': 'tf', 'set_time_step': 'dt', 'set_n_damp': 'n_damp', 'set_print_freq': 'pfreq', 'set_cfl': 'cfl',
+              'set_adaptive_timestep': 'adaptive_timestep'}
+    raw_meths = M.methods(M.find_class(t, 'Solver'))
+    nset = 0
+    for sname, attr in sorted(GOVERN.items()):
+        sf = raw_meths.get(sname)
+        if sf is None:
+            continue
+        nset += 1
+        par = [a.arg for a in sf.args.args if a.arg != 'self']
+        sto = [a for a in ast.walk(sf) if isinstance(a, ast.Assign) and any(U(x) == 'self.' + attr for x in a.targets)]
+        ld_s = N.local_defs(sf.body)
+        oks = len(sto) == 1 and len(par) >= 1 and M.enclosing(sto[0], (ast.If, ast.For, ast.While, ast.Try)) is None and \
+            compact(N.inline(sto[0].value, ld_s)) in (par[0], 'float(%s)' % par[0], 'int(%s)' % par[0], 'bool(%s)' % par[0])
+        chk.decide(oks, 'loop-guard', 'setter-stores-what-it-is-given:' + sname, node=sto[0] if sto else sf, file=SOL, func='Solver.' + sname,
+                   detail_bad='%s stores %s in self.%s: the value that governs the time loop is not the one the caller set (e.g. a limit of 0 steps turned into no limit)' % (
+                       sname, U(sto[0].value) if sto else 'nothing', attr), detail_ok='self.%s = %s' % (attr, par[0] if par else '?'))
+    chk.floor('setters of the quantities governing the loop', nset, 5)
     # epsilon bookkeeping
     eps = [compact(a.value) for a in ast.walk(solve) if isinstance(a, ast.Assign) and U(a.targets[0]) == 'self._epsilon']
     chk.decide(eps == ['EPSILON*self.tf', 'EPSILON*self.tf*self.count'], 'loop-guard', 'epsilon', node=solve, file=SOL, func='Solver.solve',
